@@ -374,6 +374,12 @@ func checkC05(p *core.Program, r *core.Report) {
 	}
 	r.Counts["dial_chain_functions"] = nchain
 	r.Floor(R7, 3)
+
+	// R8: the registry never loses the entry of a live connection and never keeps one of a dead transport
+	const R8 = "C05.R8 registry-and-liveness"
+	r.Rule(R8, "the hub deletes a registry entry only under an identity check made in the same critical section as the lookup (shared with C11.R3); a dead transport is noticed: read errors are reported, the read deadline is only extended by received traffic (shared with C13.R2/R6)")
+	importRules(p, r, "C11", map[string]string{"C11.R3 registry-identity-atomic": R8}, nil)
+	importRules(p, r, "C13", map[string]string{"C13.R2 error-told-or-not": R8, "C13.R6 liveness-deadline": R8}, nil)
 }
 
 // checkKeepRule discovers the double-connection decision function and
